@@ -100,12 +100,42 @@ func (msg *Message) CheckSumTag() string {
 	return msg.checkSum.Key
 }
 
+// trailerBytes returns the populated trailer fields. The CheckSum field is
+// not one of them: it is computed and written by Prepare.
+func (msg *Message) trailerBytes() []byte {
+	if msg.trailer == nil {
+		return nil
+	}
+
+	var fields [][]byte
+	for _, item := range msg.trailer.Items() {
+		if kv, ok := item.(*KeyValue); ok && kv.Key == msg.checkSum.Key {
+			continue
+		}
+
+		if itemB := item.ToBytes(); len(itemB) > 0 {
+			fields = append(fields, itemB)
+		}
+	}
+
+	if len(fields) == 0 {
+		return nil
+	}
+
+	return joinBody(fields...)
+}
+
 func (msg *Message) CalcBodyLength() int {
 	bh := msg.header.ToBytes()
 	bb := msg.body.ToBytes()
+	bt := msg.trailerBytes()
 	mt := msg.msgType.ToBytes()
 
 	var length int
+
+	if len(bt) > 0 {
+		length += len(bt) + 1
+	}
 
 	if len(mt) > 0 {
 		length += len(mt) + 1
@@ -138,6 +168,10 @@ func (msg *Message) BytesWithoutChecksum() []byte {
 
 	if len(bb) > 0 {
 		bm = bytes.Join([][]byte{bm, bb}, Delimiter)
+	}
+
+	if bt := msg.trailerBytes(); len(bt) > 0 {
+		bm = bytes.Join([][]byte{bm, bt}, Delimiter)
 	}
 
 	return bm
